@@ -25,7 +25,7 @@ pub fn prop() -> Prop {
                peer's claim / own claim / covered by two claims / unclaimed / broadcast, 2 sources), Tick; switch/tap and hub/tap on 3 nodes with the frame universe \
                of C13. Conservation oracle per injection: wire datagrams emitted by the reading node = the peers selected by the reference rule, addressed exactly \
                to them; no node sends anything because it RECEIVED payload; exactly one byte-identical interface write at each selected peer and none elsewhere. \
-               Plus: payload-looking datagrams of every type from a non-peer address never reach an interface. distinct_nontrivial = canonical states",
+               Plus a gateway variant (node 0 claims 0.0.0.0/0) and the mode x device matrix (all 8 combinations of normal/router/switch/hub with tun/tap, encrypted and plain). Plus: payload-looking datagrams of every type from a non-peer address never reach an interface. distinct_nontrivial = canonical states",
         run,
         replay,
     }
